@@ -23,6 +23,9 @@ HOLDER = {"entity_id": "to_entity_id", "flow_label": "to_flow_label", "fault_han
           "fs_request": "to_fs_request", "fs_response": "to_fs_response", "msg_to_user": "to_msg_to_user"}
 
 
+ISO = C.Isolation(size=8)
+
+
 def cls_of(name):
     X = C.lib()
     return {"entity_id": X.EntityIdTlv, "flow_label": X.FlowLabelTlv, "fault_handler": X.FaultHandlerOverrideTlv,
@@ -52,6 +55,8 @@ def k_tlv(ctx, t, value, suffix=""):
     ctx.check("tlv.unpack", u == o and o == u, "eq", "", case)
     ok, rp = attempt(u.pack)
     ctx.check("tlv.unpack", ok and bytes(rp) == want, "repack", "", case)
+    ISO.remember(u, want, "tlv")
+    ISO.recheck(ctx, "concrete.decoded_objects_independent", case)
 
 
 def k_lv(ctx, value, suffix=""):
@@ -74,6 +79,8 @@ def k_lv(ctx, value, suffix=""):
     ctx.check("lv.unpack", bytes(u.value) == v and u.packet_len == len(v) + 1 and u == o, "field", "", case, observed=bytes(u.value).hex()[:60])
     ok, rp = attempt(u.pack)
     ctx.check("lv.unpack", ok and bytes(rp) == want, "repack", "", case)
+    ISO.remember(u, want, "lv")
+    ISO.recheck(ctx, "concrete.decoded_objects_independent", case)
 
 
 def k_refuse(ctx, what, t, n):
@@ -174,6 +181,35 @@ def k_concrete(ctx, name, p, suffix=""):
         ctx.check("concrete.unpack", ok2 and bytes(rp) == want, "repack", f"{name}/{rname}", case)
         ok3, e = attempt(lambda: (u == o) and (o == u))
         ctx.check("concrete.unpack", ok3 and e is True, "eq", f"{name}/{rname}", case, observed=repr(e))
+        if rname != "holder_concrete":
+            ISO.remember(u, want, f"{name}/{rname}", view=lambda u=u: read(name, u))
+    # objects decoded earlier (from other octets) must still be what they were decoded from
+    ISO.recheck(ctx, "concrete.decoded_objects_independent", case)
+    k_defaults(ctx, name, p)
+
+
+def k_defaults(ctx, name, p):
+    """Objects built with defaulted optional arguments encode the documented defaults, whatever was decoded or built before."""
+    X = C.lib()
+    if name == "fs_response":
+        q = dict(p, second="", msg="")
+        if p["action"] in R.TWO_NAME_ACTIONS:
+            return
+        fn = lambda: X.FileStoreResponseTlv(X.FilestoreActionCode(p["action"]), X.FilestoreResponseStatusCode(p["status"]), p["first"])  # noqa: E731
+        want = R.tlv(1, R.fs_response_value(p["action"], p["status"] & 0xF, p["first"].encode(), b"", b""))
+    elif name == "fs_request":
+        if p["action"] in R.TWO_NAME_ACTIONS:
+            return
+        q = dict(p, second="")
+        fn = lambda: X.FileStoreRequestTlv(X.FilestoreActionCode(p["action"]), p["first"])  # noqa: E731
+        want = R.tlv(0, R.fs_request_value(p["action"], p["first"].encode(), b""))
+    else:
+        return
+    case = {"k": "defaults", "name": name, "p": q}
+    ok, o = attempt(fn)
+    ok2, raw = attempt(lambda: bytes(o.pack())) if ok else (False, o)
+    ctx.check("concrete.defaults", ok and ok2 and raw == want and read(name, o) == q and o.packet_len == len(want), "defaulted_arguments_not_default",
+              name, case, expected=want[:60], observed=raw[:60] if ok2 else repr(raw))
 
 
 def _foreign_value_for(target):
@@ -230,7 +266,7 @@ def k_status_maps(ctx, action, status4):
         ctx.check("status_maps", ok and (int(t[0]), t[1]) == (action, status4), "enum_to_action_status", "", case, observed=repr(t))
 
 
-KINDS = {"tlv": k_tlv, "lv": k_lv, "refuse": k_refuse, "concrete": k_concrete, "type_safety": k_type_safety, "status_maps": k_status_maps}
+KINDS = {"defaults": k_defaults, "tlv": k_tlv, "lv": k_lv, "refuse": k_refuse, "concrete": k_concrete, "type_safety": k_type_safety, "status_maps": k_status_maps}
 NAME_POOL = ["", "a", "/tmp/test.txt", "dir/子/ファイル.bin", "é" * 30, "n" * 100]
 
 
@@ -320,6 +356,6 @@ def conclude(ctx):
     ctx.require(len(ctx.tables.get("cond_x_handler", {})) == 13 * 4, "condition x handler table incomplete")
     for name in CONCRETE:
         ctx.require(ctx.classes.get(f"concrete/{name}", 0) > 0, f"class concrete/{name} empty")
-    for m in ("tlv.pack", "tlv.unpack", "tlv.len", "lv.pack", "lv.unpack", "concrete.pack", "concrete.unpack", "concrete.len", "type_safety",
+    for m in ("tlv.pack", "tlv.unpack", "tlv.len", "lv.pack", "lv.unpack", "concrete.pack", "concrete.unpack", "concrete.len", "concrete.decoded_objects_independent", "concrete.defaults", "type_safety",
               "long_value_refused", "status_maps"):
         ctx.require(ctx.monitors.get(m, {}).get("evaluations", 0) > 0, f"monitor {m} never evaluated")
